@@ -395,7 +395,11 @@ def nested_chains(draw, o=None):
         for s in _subset(draw, sources, 1, 3):
             ops.append(["edit", s, draw(st.integers(0, 2))])
         k = draw(st.integers(0, 99))
-        if k < 60:
+        if k < 15:
+            # one redo process of that command is killed (e.g. by the OOM killer) before its n-th state-changing call:
+            # if the command still claims success, what it was asked for must be right; then a recovery run
+            ops.append(["crash", "ifchange", [top], "", draw(st.integers(1, 160)), draw(st.sampled_from(["self", "self", "group"]))])
+        elif k < 60:
             ops.append(["cmd", "ifchange", [top], ""])
         elif k < 80 and sides:
             ops.append(["cmd", "ifchange", [_pick(draw, sides), top] if draw(st.integers(0, 1)) else [top] + sides, ""])
@@ -407,3 +411,40 @@ def nested_chains(draw, o=None):
             ops.append(["cmd", "ifchange", [top], ""])
     proj = {"dirs": [""], "sources": sources, "dofiles": dofiles, "targets": targets + sides, "watch": ["w0", "w1"]}
     return {"project": proj, "cfg": {"log": draw(st.integers(0, 1)), "keep_going": 0}, "ops": ops}
+
+
+@st.composite
+def check_then_fail(draw, o=None):
+    """Directed family (C05): within ONE run a target t is first verified clean (a dependent p is checked), then
+    force-rebuilt and fails (its script fails while a harness flag exists; the old file stays), then another dependent q
+    is requested.  A driver script does the three steps, remembering each status and exiting non-zero at the end
+    (it does not swallow the failure)."""
+    nq = draw(st.integers(1, 2))
+    dof = {"t.do": {"v": 1, "body": [["dep", 1, ["s0"]], ["failflag", "t", 3], ["out", draw(st.sampled_from(["stdout", "file"]))]]},
+           "p.do": {"v": 1, "body": [["dep", 1, ["t"]], ["out", "stdout"]]}}
+    if draw(st.integers(0, 3)) == 0:
+        dof["t.do"]["body"].append(["stamp"])
+    qs = []
+    for i in range(nq):
+        q = "q%d" % i
+        dof[q + ".do"] = {"v": 1, "body": [["dep", 1, ["t"] if i == 0 or draw(st.integers(0, 1)) else [qs[-1]]],
+                                           ["out", "stdout"]]}
+        qs.append(q)
+    steps = [["softdep", 1, ["p"]], ["softredo", ["t"]], ["softdep", 1, [qs[-1]]]]
+    if draw(st.integers(0, 3)) == 0:
+        steps.insert(2, ["softdep", 1, ["p"]])      # the dependent that was verified before is asked for again
+    dof["drv.do"] = {"v": 1, "body": steps + [["out", "stdout"]]}
+    targets = ["t", "p"] + qs + ["drv"]
+    ops = [["cmd", "ifchange", ["p"] + qs, ""]]
+    if draw(st.integers(0, 1)):
+        ops.append(["edit", "s0", draw(st.integers(0, 2))])
+        ops.append(["cmd", "ifchange", ["p"] + qs, ""])
+    ops.append(["failflag", "t", 1])
+    ops.append(["cmd", draw(st.sampled_from(["ifchange", "redo"])), ["drv"], ""])
+    ops.append(["cmd", "ifchange", [qs[-1]], ""])
+    if draw(st.integers(0, 1)):
+        ops.append(["cmd", "ifchange", ["p"], ""])
+    ops.append(["failflag", "t", 0])
+    ops.append(["cmd", "ifchange", ["p"] + qs, ""])
+    proj = {"dirs": [""], "sources": ["s0"], "dofiles": dof, "targets": targets, "watch": ["w0", "w1"]}
+    return {"project": proj, "cfg": {"log": draw(st.integers(0, 1)), "keep_going": draw(st.integers(0, 1))}, "ops": ops}
